@@ -383,9 +383,12 @@ impl<RW: QueueRW<T>, T> MultiQueue<RW, T> {
     }
 
     pub fn try_recv(&self, reader: &Reader) -> Result<T, (*const AtomicUsize, TryRecvError)> {
+        // Decide about pinning before looking at the position: if the count is read
+        // afterwards, a sibling can consume the loaded position and drop its handle in
+        // between, and this consumer would clone an already released slot unpinned.
+        let is_single = reader.is_single();
         let mut ctail_attempt = reader.load_attempt(Relaxed);
         vpoint!(R_ATTEMPT);
-        let is_single = reader.is_single();
         unsafe {
             loop {
                 let (ctail, wrap_valid_tag) = ctail_attempt.get();
